@@ -51,7 +51,7 @@ REQUIRED_THEOREMS += ['call_effect', 'return_to_caller', 'call_return_roundtrip'
 THEOREM_MODULES.append("Yarel.Props.FnsTie.Statements")
 REQUIRED_THEOREMS += ["emit_return_skeleton", "return_statement_skeleton", "try_statement_skeleton", "break_statement_skeleton",
                       "break_discards_before_jumping", "continue_statement_skeleton", "while_statement_skeleton", "if_statement_skeleton",
-                      "condition_value_popped_on_both_sides"]
+                      "condition_value_popped_on_both_sides", "for_statement_skeleton", "and_skeleton", "or_skeleton"]
 
 
 def opnames():
